@@ -3295,6 +3295,16 @@ stoCAlloc(unsigned code, ULong nbytes)
  * Verification hook: with ALDOR_VERIF_GC=k:j in the environment, force a
  * collection at every allocation whose ordinal is congruent to j modulo k.
  */
+/* Overwrite the dead stack below the caller, so that stale copies of recently returned
+ * pointers do not keep otherwise unreachable pieces alive in the conservative scan. */
+local void
+stoVerifScrubStack(void)
+{
+	volatile char	junk[4096];
+	int		i;
+	for (i = 0; i < (int) sizeof(junk); i++) junk[i] = 0;
+}
+
 local void
 stoVerifMaybeGc(void)
 {
@@ -3305,8 +3315,10 @@ stoVerifMaybeGc(void)
 		k = 0;
 		if (e) sscanf(e, "%ld:%ld", &k, &j);
 	}
-	if (k > 0 && (count++ % k) == j)
+	if (k > 0 && (count++ % k) == j) {
+		stoVerifScrubStack();
 		stoGc();
+	}
 }
 #endif
 
@@ -3322,6 +3334,8 @@ stoAlloc(unsigned code, ULong nbytes)
 		return (*stoError)(StoErr_CantBuild);
 
 #ifdef ALDOR_VERIF
+	/* the locals still hold the previous call's piece: do not let them act as roots */
+	p = 0; sect = 0; qi = 0; ap = 0;
 	stoVerifMaybeGc();
 #endif
 
